@@ -36,6 +36,9 @@ pub enum Case {
     Curve { interp: u8, order: u8, calkind: u8, conv: u8, modi: u8, index_base: bool, switches: Vec<u8> },
     Fx { id: u32 },
     Spline { id: u32 },
+    /// curves whose node dates do not sort as text the way they sort as numbers (timestamps of 9 and 10 digits around
+    /// 2001-09-09, negative timestamps before 1970)
+    CurveDates { set: u8, interp: u8, order: u8 },
     /// large objects: numbers with `size` names, curves with `size` nodes, splines with `size` coefficients,
     /// FX markets of min(size, 14) currencies
     LargeStruct { size: usize },
@@ -479,7 +482,7 @@ fn cal_of_kind(k: u8) -> CalType {
 }
 
 fn fx_market(id: u32) -> Option<FXRates> {
-    // id encodes: n (2..4), quote form (3), settlement (2), base choice (3), history (6)
+    // id encodes: n (2..4), quote form (3), settlement (2), base choice (3), history (8)
     let mut c = id;
     let n = 2 + (c % 3) as usize;
     c /= 3;
@@ -489,8 +492,8 @@ fn fx_market(id: u32) -> Option<FXRates> {
     c /= 2;
     let basesel = c % 3;
     c /= 3;
-    let hist = c % 6;
-    c /= 6;
+    let hist = c % 8;
+    c /= 8;
     if c > 0 {
         return None;
     }
@@ -530,6 +533,18 @@ fn fx_market(id: u32) -> Option<FXRates> {
             if fx.update(vec![mk(0, vals[0] * 1.25), foreign]).is_ok() {
                 return None;
             }
+        }
+        6 => {
+            // the same value again, as a dual number WITHOUT variables (equal as a number, different as a quote)
+            let q = FXRate::try_new(CCYS[pairs[0].0], CCYS[pairs[0].1], Number::Dual(Dual::new(vals[0], vec![])), st).unwrap();
+            fx.update(vec![q]).ok()?;
+        }
+        7 => {
+            // the same value again as a plain float (whatever form the quote had), after an order switch and back
+            fx.set_ad_order(ADOrder::Two).ok()?;
+            fx.set_ad_order(ADOrder::One).ok()?;
+            let q = FXRate::try_new(CCYS[pairs[n - 2].0], CCYS[pairs[n - 2].1], Number::F64(vals[n - 2]), st).unwrap();
+            fx.update(vec![q]).ok()?;
         }
         5 => {
             // refused for an inconsistent settlement date, then an order switch
@@ -801,6 +816,53 @@ pub fn check(case: &Case, idx: u64, acc: &mut Acc) {
                 rep.acc.skip();
             }
         }
+        Case::CurveDates { set, interp, order } => {
+            const D: i64 = 86_400;
+            let xs: Vec<i64> = match set {
+                0 => vec![999_000_000 / D * D, 999_950_400, 1_000_000_000 / D * D, 1_000_944_000, 1_010_000_000 / D * D],
+                1 => vec![-400 * D, -30 * D, -D, 0, 20 * D, 11_574 * D, 11_575 * D],
+                _ => vec![-20_000 * D, -9 * D, 9 * D, 99_999_999 / D * D, 100_000_000 / D * D + D, 999_999_999 / D * D, 1_000_000_000 / D * D + D, 2_000_000_000 / D * D],
+            };
+            let mut m: IndexMap<chrono::NaiveDateTime, Number> = IndexMap::new();
+            for (k, x) in xs.iter().enumerate() {
+                m.insert(ts_to_ndt(*x), Number::F64(1.0 / (1.0 + 0.07 * k as f64)));
+            }
+            let ad = [ADOrder::Zero, ADOrder::One, ADOrder::Two][*order as usize];
+            let c = VerifCurve::new(m, INTERPS[*interp as usize], ad, "dts", Convention::Act365F, Modifier::ModF, CalType::Cal(Cal::new(vec![], vec![5, 6])), Some(100.0)).expect("curve builds");
+            rep.acc.nontrivial();
+            all3_curve(&mut rep, &c, true);
+            // the public typed CurveDF through its own JSON entry point: equal, and answering every look-up alike
+            if *order == 0 && *interp < 2 {
+                use rateslib::curves::CurveInterpolation;
+                let nodes = Nodes::F64(xs.iter().enumerate().map(|(k, x)| (ts_to_ndt(*x), 1.0 / (1.0 + 0.07 * k as f64))).collect());
+                let qs = queries(&xs);
+                macro_rules! typed {
+                    ($i:expr, $t:ty) => {{
+                        let c = CurveDF::try_new(nodes.clone(), $i, "df", Convention::Act360, Modifier::ModF, Some(1.0 / 3.0), Cal::new(vec![], vec![5, 6])).unwrap();
+                        let r = c.to_json().map_err(|e| format!("to_json failed: {}", e)).and_then(|s| CurveDF::<$t, Cal>::from_json(&s).map_err(|e| format!("from_json failed: {}", e))).and_then(|y| {
+                            if y != c {
+                                return Err("structure/own == says different".to_string());
+                            }
+                            for q in qs.iter() {
+                                let d = ts_to_ndt(*q);
+                                if c.node_index(*q) != y.node_index(*q) {
+                                    return Err(format!("query/node_index at {}", d));
+                                }
+                                same_number(&c.interpolated_value(&d), &y.interpolated_value(&d)).map_err(|e| format!("query/look-up {}: {}", d, e))?;
+                            }
+                            Ok(())
+                        });
+                        rep.judge("json", "CurveDF", r);
+                    }};
+                }
+                if *interp == 0 {
+                    typed!(LinearInterpolator::new(), LinearInterpolator);
+                } else {
+                    typed!(LogLinearInterpolator::new(), LogLinearInterpolator);
+                }
+            }
+            rep.acc.sample(|| serde_json::to_value(case).unwrap());
+        }
         Case::LargeStruct { size } => {
             let n = *size;
             rep.acc.nontrivial();
@@ -949,6 +1011,13 @@ pub fn cases(tier: Tier) -> Vec<Case> {
     for size in [5usize, 9, 16, 17, 33, 64, 65, 101, 130, 257] {
         out.push(Case::LargeStruct { size });
     }
+    for set in 0..3u8 {
+        for interp in 0..5u8 {
+            for order in 0..3u8 {
+                out.push(Case::CurveDates { set, interp, order });
+            }
+        }
+    }
     for id in 0..192 {
         out.push(Case::UnionStruct { id, extra: 0 });
         if id % 8 == 3 {
@@ -994,7 +1063,7 @@ pub fn cases(tier: Tier) -> Vec<Case> {
             }
         }
     }
-    for id in 0..(3 * 3 * 2 * 3 * 6) {
+    for id in 0..(3 * 3 * 2 * 3 * 8) {
         out.push(Case::Fx { id });
     }
     for id in 0..6 {
@@ -1023,8 +1092,8 @@ pub fn run(ctx: &Ctx, replay_file: Option<String>) -> ! {
          one after the other on one thread and inside one curve / spline / FX market; every week mask x holiday subsets for Cal; unions of 1-3 (and 4-14) member calendars with \
          None / [] / 1-2 settlement calendars; named calendars (name-only storage checked in the JSON text, full \
          1970-2200 behaviour compared); curves: 6 interpolators x 3 orders x 3 calendar kinds x 11 conventions x 5 \
-         modifiers x index base on/off, and curves with a history of order switches; FX markets of 2-4 currencies x \
-         float/Dual/Dual2 quotes x settlement x three base choices x six histories (fresh, order switch, update, \
+         modifiers x index base on/off, curves with a history of order switches, and curves whose node dates straddle 1970-01-01 and 2001-09-09 (timestamps that sort differently as text and as numbers); FX markets of 2-4 currencies x \
+         float/Dual/Dual2 quotes x settlement x three base choices x eight histories (an update to the same value in another form (variable-free dual number, plain float), fresh, order switch, update, \
          update between order switches, refused update with a known pair listed first, refused update for its settlement date followed by an order switch); splines of the three types with and without coefficients; typed CurveDF; every loaded market, curve and float spline is also taken ONE STEP FURTHER together with its original (the same quote update, the same three order switches with look-ups, the same re-solve) and must stay identical; large objects on a size menu (5 .. 257): numbers with that many names, curves with that many nodes at orders 0-2, \
          cubic splines with that many coefficients (float and Dual), FX chains of up to 14 currencies. \
          Oracle: the type's own ==, bitwise identity of EVERY float field, identical names/order/kind, and an identical \
